@@ -79,10 +79,15 @@ type config struct {
 	lazy, nocopy, pool bool
 	ctx                bool // PacketsCtx with a cancel action; else Packets()
 	again              bool // a second PacketsCtx call is one of the actions
+	late               bool // NoCopy is switched on just before that second call (zero-copy source)
 }
 
 func (c config) String() string {
-	return fmt.Sprintf("zeroCopySource=%v lazy=%v nocopy=%v pool=%v cancelable=%v secondCall=%v", c.zero, c.lazy, c.nocopy, c.pool, c.ctx, c.again)
+	s := fmt.Sprintf("zeroCopySource=%v lazy=%v nocopy=%v pool=%v cancelable=%v secondCall=%v", c.zero, c.lazy, c.nocopy, c.pool, c.ctx, c.again)
+	if c.late {
+		s += " noCopySwitchedOnBeforeSecondCall=true"
+	}
+	return s
 }
 
 type scenario struct {
@@ -183,6 +188,7 @@ func runOnce(t *testing.T, sc scenario, c *dfs.Chooser) (res result) {
 	cancelAtGrant := -1
 	grants := 0
 	secondSame := true
+	lateAccepted := false
 	var conPanic any
 	var conStack []byte
 	stuckClose := false
@@ -286,6 +292,25 @@ func runOnce(t *testing.T, sc scenario, c *dfs.Chooser) (res result) {
 			case aAgain:
 				didAgain = true
 				var ch2 chan gopacket.Packet
+				if sc.cfg.late {
+					// the configuration the channel interface refuses, reached after the first call
+					ps.NoCopy = true
+					func() {
+						defer func() {
+							if recover() == nil {
+								lateAccepted = true
+							}
+							ps.NoCopy = false
+						}()
+						if sc.cfg.ctx {
+							ps.PacketsCtx(ctx)
+						} else {
+							ps.Packets()
+						}
+					}()
+					synctest.Wait()
+					break
+				}
 				if sc.cfg.ctx {
 					ch2 = ps.PacketsCtx(ctx)
 				} else {
@@ -356,6 +381,9 @@ func runOnce(t *testing.T, sc scenario, c *dfs.Chooser) (res result) {
 	}
 	if src.concurrent {
 		add("single-reader|two reads of the data source in flight at once (second background reader)", "")
+	}
+	if lateAccepted {
+		add("refuse|zero-copy source with NoCopy switched on after the first call is not refused on the next call", "PacketsCtx returned a channel")
 	}
 	if !secondSame {
 		add("single-reader|second PacketsCtx call returned a different channel", "")
@@ -677,7 +705,8 @@ func TestExplore(t *testing.T) {
 	}
 	// F3: second PacketsCtx call at every point (short scripts)
 	for _, s := range scripts(2, 1) {
-		scen = append(scen, scenario{s, config{again: true}}, scenario{s, config{again: true, ctx: true}})
+		scen = append(scen, scenario{s, config{again: true}}, scenario{s, config{again: true, ctx: true}},
+			scenario{s, config{again: true, zero: true, late: true}}, scenario{s, config{again: true, ctx: true, zero: true, late: true}})
 	}
 	if rp := os.Getenv("VERIF_REPLAY"); rp != "" {
 		replay(t, rp, scen)
